@@ -21,6 +21,8 @@ const pkgQueueRes = "pkg/queuecontroller/controllers/resource_updater"
 
 func runC20(c *Ctx) {
 	runC20BothSums(c)
+	runC20DeployAllSteps(c)
+	runC20QueueGauges(c)
 	runC20DesiredOnLive(c)
 	runC20ErrDrop(c)
 	runC20Inherit(c)
@@ -956,4 +958,92 @@ func runC20BothSums(c *Ctx) {
 			name+" is skipped on some path ("+pathStr(path)+"): a queue that has both a parent and children (or both children and own pod groups) reports only part of what is below it, and so does every ancestor")
 	}
 	c.Floor("O14", "MPT sums of UpdateQueue", n, 2)
+}
+
+// runC20DeployAllSteps (O15): the operator's Deploy is the only place where objects that are owned but no longer
+// desired are deleted, missing ones created and drifted ones updated. Every error-free path through it performs all
+// three kinds of cluster writes (possibly on empty work lists — the decision what to write belongs to the diff, not to
+// a short cut in front of it). A short cut that returns success early ("nothing desired", "nothing changed in the
+// config") leaves the cluster in a state that is not a function of the configuration.
+func runC20DeployAllSteps(c *Ctx) {
+	f := c.Anchor("O15", "pkg/operator/operands/deployable", "DeployableOperands", "Deploy")
+	if f == nil {
+		return
+	}
+	errEdge := func(from, to *ssa.BasicBlock) bool {
+		return !c.Fx.edgeEstablishes(from, to, func(ft Fact) bool {
+			return ft.T.Op == "bin" && len(ft.T.Args) == 2 && ft.T.Args[1].isNilConst() && ft.T.Args[0].V != nil && types.Identical(ft.T.Args[0].V.Type(), errorType) &&
+				((ft.T.Name == "!=" && ft.Pol) || (ft.T.Name == "==" && !ft.Pol))
+		})
+	}
+	n := 0
+	for _, kind := range [][]string{{"Create"}, {"Delete"}, {"Update", "Patch"}} {
+		step := c.P.performs(isInvokeNamed(kind...), 3)
+		if len(instrsIn(f, step)) == 0 {
+			c.Undec("O15", "ANCHOR", "Deploy: no step that performs "+strings.Join(kind, "/"), f.Pos(), "not found")
+			continue
+		}
+		n++
+		_, path, found := reachAvoiding([]cfgPos{entryPos(f)}, isReturn, step, errEdge)
+		c.Check(!found, "O15", "MPT", funcKey(f)+": the "+strings.Join(kind, "/")+" step runs on every error-free path", f.Pos(), "no success exit before the step",
+			"Deploy can report success without its "+strings.Join(kind, "/")+" step ("+pathStr(path)+"): objects that are owned but no longer desired stay (or missing / drifted ones are not repaired), so the deployed state depends on what was deployed before, not only on the configuration")
+	}
+	c.Floor("O15", "MPT write steps of Deploy", n, 3)
+}
+
+// runC20QueueGauges (O16): the queue controller reports each queue through gauge vectors keyed by the queue name AND
+// by label values taken from the queue's labels. Setting a gauge under new label values does not remove the series
+// under the old ones: every vector that SetQueueMetrics writes is first cleared for the queue (DeletePartialMatch on
+// the same vector, on every path to the write), otherwise a relabelled queue is reported twice, once with stale values.
+func runC20QueueGauges(c *Ctx) {
+	f := c.Anchor("O16", "pkg/queuecontroller/metrics", "", "SetQueueMetrics")
+	if f == nil {
+		return
+	}
+	globalOf := func(v ssa.Value) *ssa.Global {
+		// the vector itself, or the vector embedded in it (promoted methods take the embedded *MetricVec)
+		for i := 0; i < 6 && v != nil; i++ {
+			switch x := v.(type) {
+			case *ssa.UnOp:
+				v = x.X
+			case *ssa.FieldAddr:
+				v = x.X
+			case *ssa.Field:
+				v = x.X
+			case *ssa.Global:
+				return x
+			default:
+				return nil
+			}
+		}
+		return nil
+	}
+	n := 0
+	for _, h := range c.P.deepFind(f, func(in ssa.Instruction) bool {
+		cc, ok := in.(ssa.CallInstruction)
+		if !ok {
+			return false
+		}
+		cal := calleeOf(cc)
+		return cal != nil && cal.Name() == "WithLabelValues" && len(cc.Common().Args) > 0 && globalOf(cc.Common().Args[0]) != nil
+	}, 1) {
+		site := h.In
+		if len(h.Chain) > 0 {
+			site = h.Chain[0]
+		}
+		g := globalOf(h.In.(ssa.CallInstruction).Common().Args[0])
+		n++
+		clears := c.P.performs(func(in ssa.Instruction) bool {
+			cc, ok := in.(ssa.CallInstruction)
+			if !ok {
+				return false
+			}
+			cal := calleeOf(cc)
+			return cal != nil && (cal.Name() == "DeletePartialMatch" || cal.Name() == "DeleteLabelValues" || cal.Name() == "Reset") && len(cc.Common().Args) > 0 && globalOf(cc.Common().Args[0]) == g
+		}, 2)
+		_, path, found := reachAvoiding([]cfgPos{entryPos(f)}, func(in ssa.Instruction) bool { return in == site }, clears, nil)
+		c.Check(!found, "O16", "MPT", fmt.Sprintf("%s: %s is cleared for the queue before it is set", funcKey(f), g.Name()), instrPos(site), "DeletePartialMatch on the same vector on every path",
+			"the gauge "+g.Name()+" is set without the queue's previous series having been removed ("+pathStr(path)+"): after a change of the queue's metric labels the old series stays and the queue is reported twice, once with stale values")
+	}
+	c.Floor("O16", "MPT gauge writes of SetQueueMetrics", n, 7)
 }
